@@ -133,7 +133,7 @@ Definition identb (s : str) : bool :=
   match s with c :: r => ident_start c && forallb ident_part r | [] => false end.
 
 (* ================================================================== no-process-global / no-node-globals *)
-Inductive newline : Type := NlLeading | NlTrailing | NlNone.
+Inductive newline : Type := NlLeading | NlTrailing | NlNone | NlInline.   (* NlInline: a leading blank, same line *)
 Inductive fix_kind : Type := FkImport (module imp : str) | FkReplace (new : str).
 
 Definition IMPORT_ : str := [105; 109; 112; 111; 114; 116; 32].    (* import + blank *)
@@ -142,7 +142,7 @@ Definition Q_SEMI : str := [34; 59].                                 (* DQ ; *)
 
 (* format!({leading}import {import} from DQ{module}DQ;{trailing}) *)
 Definition import_text (imp module : str) (nl : newline) : str :=
-  (match nl with NlLeading => [NL] | _ => [] end)
+  (match nl with NlLeading => [NL] | NlInline => [32] | _ => [] end)
   ++ IMPORT_ ++ imp ++ FROM_Q ++ module ++ Q_SEMI
   ++ (match nl with NlTrailing => [NL] | _ => [] end).
 
@@ -171,31 +171,34 @@ Definition node_globals : list (str * fix_kind) :=
 Fixpoint lookup (k : str) (l : list (str * fix_kind)) : option fix_kind :=
   match l with [] => None | (k', v) :: r => if str_eqb k k' then Some v else lookup k r end.
 
-(* fix_change: after the most recent TOP-LEVEL import declaration seen so far (leading newline), else
-   at the start of the first statement (trailing newline); a Replace goes over the identifier itself.
-   (Before the fix `last_import_end` was the most recent import declaration at any depth.) *)
-Definition global_change_before_fix (last_import_end : option N) (code_start : N) (s e : N) (fk : fix_kind) : chg :=
+(* fix_change: after the most recent TOP-LEVEL import declaration seen so far -- on a new line (leading newline), or on
+   the same line behind a blank when more code follows the import on its line (`inline`: that code must stay on the line a
+   line-level ignore directive above it covers) --, else at `code_start` (trailing newline): the start of the first statement,
+   or of a line-level ignore directive on the line right above it; a Replace goes over the identifier itself.
+   (Before the fixes `last_import_end` was the most recent import declaration at any depth, the text always had a leading
+   newline, and code_start was always the first statement.) *)
+Definition global_change_before_fix (last_import_end : option (N * bool)) (code_start : N) (s e : N) (fk : fix_kind) : chg :=
   match fk with
   | FkImport _ _ =>
       match last_import_end with
-      | Some p => (p, p, to_text fk NlLeading)
+      | Some (p, inline) => (p, p, to_text fk (if inline then NlInline else NlLeading))
       | None => (code_start, code_start, to_text fk NlTrailing)
       end
   | FkReplace _ => (s, e, to_text fk NlNone)
   end.
 
 (* no import fix in a CommonJS file (None = the diagnostic carries no fix) *)
-Definition global_change (is_cjs : bool) (last_import_end : option N) (code_start : N) (s e : N) (fk : fix_kind) : option chg :=
+Definition global_change (is_cjs : bool) (last_import_end : option (N * bool)) (code_start : N) (s e : N) (fk : fix_kind) : option chg :=
   match fk with
   | FkImport _ _ => if is_cjs then None else Some (global_change_before_fix last_import_end code_start s e fk)
   | FkReplace _ => Some (global_change_before_fix last_import_end code_start s e fk)
   end.
 
-Definition process_change (is_cjs : bool) (last_import_end : option N) (code_start : N) : option chg :=
+Definition process_change (is_cjs : bool) (last_import_end : option (N * bool)) (code_start : N) : option chg :=
   global_change is_cjs last_import_end code_start 0 0 FK_PROCESS.
 
 (* outer None = the name is not in NODE_GLOBALS (no diagnostic); inner None = diagnostic without fix *)
-Definition node_global_change (is_cjs : bool) (name : str) (last_import_end : option N) (code_start s e : N) : option (option chg) :=
+Definition node_global_change (is_cjs : bool) (name : str) (last_import_end : option (N * bool)) (code_start s e : N) : option (option chg) :=
   match lookup name node_globals with
   | Some fk => Some (global_change is_cjs last_import_end code_start s e fk)
   | None => None
@@ -242,6 +245,7 @@ Definition import_line_ok (nl : newline) (s : str) : bool :=
   | NlLeading => match s with c :: r => (c =? NL) && import_stmtb r | [] => false end
   | NlTrailing => match rev s with c :: r => (c =? NL) && import_stmtb (rev r) | [] => false end
   | NlNone => import_stmtb s
+  | NlInline => match s with c :: r => (c =? 32) && import_stmtb r | [] => false end
   end.
 
 (* ================================================================== verbatim-module-syntax *)
@@ -639,12 +643,12 @@ Theorem global_change_shape last code_start s e fk :
   global_change true last code_start s e fk = None /\
   exists a t, global_change false last code_start s e fk = Some (a, a, t) /\
     match last with
-    | Some p => a = p /\ t = to_text fk NlLeading
+    | Some (p, inline) => a = p /\ t = to_text fk (if inline then NlInline else NlLeading)
     | None => a = code_start /\ t = to_text fk NlTrailing
     end.
 Proof.
   intros H. cbn [import_kinds In] in H.
-  destruct H as [<-|[<-|[<-|[<-|[]]]]]; (split; [reflexivity|]); destruct last;
+  destruct H as [<-|[<-|[<-|[<-|[]]]]]; (split; [reflexivity|]); destruct last as [[p inline]|];
     cbn [global_change global_change_before_fix FK_PROCESS FK_BUFFER FK_SET_IMMEDIATE FK_CLEAR_IMMEDIATE];
     eexists _, _; repeat split.
 Qed.
